@@ -1,8 +1,8 @@
 SPECIFICATION Spec
 CONSTANTS
   MaxSources = 2
-  FormatSet = {"nt", "turtle", "bogus"}
-  CompSet = {"none", "gz", "zip", "bogus"}
-  ExampleSet = {"none", "all", "bogus"}
+  FormatSet = {"nt", "turtle", "bogus", "NT", "Turtle"}
+  CompSet = {"none", "gz", "zip", "bogus", "GZ"}
+  ExampleSet = {"none", "all", "bogus", "ALL"}
 INVARIANT CtorAgrees
 INVARIANT CallAgrees
